@@ -4,8 +4,10 @@ import (
 	"encoding/json"
 	"fmt"
 	"math/rand"
+	"runtime"
 	"strconv"
 	"strings"
+	"time"
 
 	"github.com/orda-io/orda/client/pkg/model"
 	"github.com/orda-io/orda/client/pkg/orda"
@@ -247,7 +249,36 @@ func c19SDK(c *core.Case) *core.Result {
 		before := len(P.Pending())
 		var perr error
 		var nPatches int
-		if pm := safely(func() {
+		if r.Intn(4) == 0 {
+			// the same call made INSIDE a transaction body, on the handle the body receives
+			// (PatchByJSON is part of that handle's interface): it reaches the target, and what
+			// the enclosing transaction emits is one unit. The call is made on a goroutine of its
+			// own: a body that waits for the lock its own goroutine holds never returns.
+			c.Count("patches_inside_a_transaction_body", 1)
+			done := make(chan string, 1)
+			go func() {
+				done <- safely(func() {
+					if e := doc.Transaction("patch-in-body", func(tx orda.DocumentInTx) error {
+						ps, e := tx.PatchByJSON(tjson)
+						nPatches = len(ps)
+						return e
+					}); e != nil {
+						perr = e
+					}
+				})
+			}()
+			select {
+			case pm := <-done:
+				if pm != "" {
+					return c.Violation("sdk:panic", "PatchByJSON(%s) inside a transaction body on %s panicked: %s", clip(tjson, 300), clip(crdt.Canon(cur), 300), pm)
+				}
+			case <-time.After(20 * time.Second):
+				if dump := allStacks(); waitsForOwnTransactionLock(dump) {
+					return c.Violation("sdk:patch-in-transaction-never-returns", "PatchByJSON(%s) called inside a transaction body never returns: the goroutine waits for the datatype's lock inside a transaction it started from within its own transaction body\n%s", clip(tjson, 300), clipDump(dump))
+				}
+				return c.Inconclusive("patch inside a transaction body: watchdog")
+			}
+		} else if pm := safely(func() {
 			if (c.Index+i)%3 == 1 {
 				// the same patch through the explicit API: the JSON-patch steps computed by the
 				// harness, applied with Document.Patch
@@ -396,4 +427,28 @@ func c19SDK(c *core.Case) *core.Result {
 		c.NonTrivial()
 	}
 	return c.Held()
+}
+
+// allStacks returns the stacks of all goroutines.
+func allStacks() string {
+	buf := make([]byte, 1<<20)
+	for {
+		n := runtime.Stack(buf, true)
+		if n < len(buf) {
+			return string(buf[:n])
+		}
+		buf = make([]byte, 2*len(buf))
+	}
+}
+
+// waitsForOwnTransactionLock: some goroutine waits for the datatype's transaction lock in a
+// DoTransaction that was called from inside the body of another DoTransaction on its own stack
+// (which holds that lock): a wait that no other goroutine can end.
+func waitsForOwnTransactionLock(dump string) bool {
+	for _, g := range strings.Split(dump, "\n\n") {
+		if strings.Contains(g, "setTransactionContextAndLock") && strings.Contains(g, "sync.(*Mutex).") && strings.Count(g, ").DoTransaction(") >= 2 {
+			return true
+		}
+	}
+	return false
 }
